@@ -245,4 +245,22 @@ def region (i : IfaceSpec) (calls : List Call) : String :=
   else if F_pathArgBrace i calls then "F_pathArgBrace"
   else "WF"
 
+/-- the model's answer for one call: generate the client from the doc texts, then run the method -/
+def callModel (i : Iface) (method : String) (args : Args) : Option Outcome :=
+  match generate i with
+  | .ok plans true => (plans.find? (fun pl => pl.name == method)).map (fun pl => send pl args)
+  | _ => none
+
+def Outcome.path? : Outcome → Option (List Char)
+  | .sent r => some r.path
+  | .panic => none
+
+def GenRes.failsToCompile : GenRes → Bool
+  | .ok _ false => true
+  | _ => false
+
+/-- the specification's answer for the same call -/
+def callSpec (i : IfaceSpec) (method : String) (args : Args) : Option Outcome :=
+  (findMethod i method).map (fun m => .sent (specRequest i m args))
+
 end ShootVerif.Rest
